@@ -6,6 +6,8 @@ defects and seeded changes still surface.
   alternating-ring-tie            an atom has two neighbours that lie in ONE automorphism orbit of the stereo-free graph but are bonded to it
                                   with different bond orders (cyclobutadiene, cyclooctatetraene, bridged cyclobutadienes): Morgan classes tie,
                                   no automorphism fixing the atom exchanges them, `_smiles` breaks the tie by insertion order.
+  partially-labelled-twin         a labelled stereo element whose constitutionally equivalent twin is unlabelled (one of two equivalent centres /
+                                  double bonds specified): the stereo-aware refinement only separates elements that are both labelled.
   morgan-incomplete               colour refinement (what Morgan refinement computes) leaves atoms of different automorphism orbits in one class
                                   (dispiro[2.2.2.2]decane: cyclopropane and cyclohexane CH2): ties between non-automorphic atoms.
   symmetric-spiro                 a spiro atom (cut vertex shared by two ring blocks, two neighbours in each) with a neighbour in each ring lying in one
@@ -195,6 +197,22 @@ def sssr_dependent_chirality(m):
     return False
 
 
+def partially_labelled_twin(m, orb=None):
+    """a labelled stereo element whose constitutional twin (image under an automorphism of the stereo-free graph) carries no label:
+    `_chiral_morgan` only separates elements that are BOTH labelled, the labelled one and its twin keep one class"""
+    orb = orb or iso.orbits(m)
+    by_orb = {}
+    for n, a in m.atoms():
+        by_orb.setdefault(orb[n], []).append(a.stereo is not None)
+    if any(True in v and False in v for v in by_orb.values()):
+        return True
+    bo = {}
+    for a, b, bd in m.bonds():
+        if bd.order == 2:
+            bo.setdefault(frozenset((orb[a], orb[b])), []).append(bd.stereo is not None)
+    return any(True in v and False in v for v in bo.values())
+
+
 def c01_family(m, relations):
     """family name for a failing C01 input (m normalised, relations = set of relations that failed) or None"""
     if thiele_sssr_choice(m):
@@ -202,6 +220,8 @@ def c01_family(m, relations):
     orb = iso.orbits(m)
     if alternating_ring_tie(m, orb):
         return 'alternating-ring-tie'
+    if partially_labelled_twin(m, orb):
+        return 'partially-labelled-twin'
     if morgan_incomplete(m, orb):
         return 'morgan-incomplete'
     try:
@@ -232,6 +252,7 @@ def c02_family(m, differences):
 # smallest witnesses per family: fixed, seed-independent, run in both tiers with enough draws that the family key fires in every run
 ANCHORS = {
     'alternating-ring-tie': ('C1=CC=C1', 'C1=CC=CC=CC=C1'),
+    'partially-labelled-twin': ('C[C@H](Cl)C(C)Cl', 'F/C=C/C=CF', 'C[C@H]1CC(C)CNC1'),
     'morgan-incomplete': ('C1CC12CCC1(CC2)CC1',),
     'symmetric-spiro': ('N1CCC2(CC1)CCNCC2', 'C1CC[Si]2(CC1)CCCCC2', 'C1CCCCCCC12CCCCCCC2'),
     'thiele-sssr-choice': ('C1=C2C=CC=C1C2',),
